@@ -261,15 +261,20 @@ def make_graph(chk, sc, gid, rng, nlibs):
         cands, _ = tlc_gen(sc, gfile, "g%d_layer%d" % (gid, li), sims=40, seed=chk.seed * 100 + gid * 10 + li)
         cands = stratify([c for c in cands if c["names"]], rng, 60)
         for k in range(layers[li - 1] + 1, layers[li] + 1):
-            for _ in range(50):
-                want = rng.choice([1, 2, 2])
-                picks = rng.sample(cands, want)
-                if li > 1 and all(base(c["e"]) <= layers[0] for c in picks):
+            own = {"h%d" % k, "k%d" % k}         # the library's private helper / state must not clash with an import
+            usable = [c for c in cands if not own & set(names_of(c))]
+            if not usable:
+                raise Broken("no usable import set for library %d of graph %d" % (k, gid))
+            picks = None
+            for _ in range(200):
+                cand = rng.sample(usable, min(len(usable), rng.choice([1, 2, 2])))
+                if li > 1 and all(base(c["e"]) <= layers[0] for c in cand):
                     continue                     # the last layer imports from the middle one: re-export chains
-                if agree([names_of(c) for c in picks]):
+                if agree([names_of(c) for c in cand]):
+                    picks = cand
                     break
-            else:
-                picks = picks[:1]
+            if picks is None:
+                picks = [rng.choice(usable)]
             imported = {}
             for c in picks:
                 imported.update(names_of(c))
@@ -491,8 +496,8 @@ def run():
                 raise Broken("%s: the specification violates its own law %s\n%s" % (cfg, r.violated, r.out[-2000:]))
             if r.distinct < 50:
                 raise Broken("%s: vacuous model run (%d states)" % (cfg, r.distinct))
-            if cfg == "ImportRunMC.cfg" and r.coverage.get("Action", (1, 1))[0] == 0:
-                raise Broken("%s: no action taken" % cfg)
+            if cfg == "ImportRunMC.cfg":
+                vlib.check_coverage(r, ["DoBegin", "DoBody", "DoEnd", "DoRefer", "DoDiscard"], cfg)
             chk.add_mc("%s (%s)" % (cfg, what), r)
         chk.cov["exhaustive"] = True
         stats = {"ok": 0, "rejected": 0, "skipped": 0}
